@@ -413,10 +413,14 @@ class USBStreamOutEndpoint(Elaboratable):
         with m.If(data_is_lost):
             m.d.usb += overflow.eq(1)
 
-        # We'll clear the overflow flag and byte counter when the packet is done.
+        # We'll clear the byte counter when the packet is done.
         with m.Elif(fifo.write_commit | fifo.write_discard):
-            m.d.usb += overflow.eq(0)
             m.d.usb += rx_cnt.eq(0)
+
+        # The overflow flag must survive until we've responded to the packet -- at full speed the response is
+        # requested well after the packet has been committed/discarded -- so it's cleared by the next token.
+        with m.If(tokenizer.new_token):
+            m.d.usb += overflow.eq(0)
 
         # We'll toggle our DATA PID each time we issue an ACK to the host [USB 2.0: 8.6.2].
         with m.If(data_response_requested & data_accepted):
